@@ -54,6 +54,8 @@ u8_enum!(FinScript {
     UpgradeWcellIntoCell0 = 13,
     CollectThenTryUnwrapG = 14,
     CollectThenFinalizeAgainG = 15,
+    CollectThenAlloc = 16,
+    NewCyclicIntoCell1 = 17,
 });
 
 u8_enum!(DropScript {
@@ -84,6 +86,9 @@ u8_enum!(ActionKind {
     UpgradeNeighbourWeak = 4,
     CleanOther = 5,
     Collect = 6,
+    TryUnwrapG = 7,
+    CollectThenTryUnwrapG = 8,
+    FinalizeAgainG = 9,
 });
 
 // ------------------------------------------------------------------------------------------------
@@ -228,6 +233,8 @@ pub struct MObj {
     pub upgraded_in_dtor: bool,
     /// Was made reachable again by a finalizer after having been finalized
     pub resurrected: bool,
+    /// finalize was called on it during the current operation (it is a member of a set being processed)
+    pub fin_this_op: bool,
     pub buffered: bool,
     pub side: usize,
     pub map_addr: usize,
@@ -258,6 +265,7 @@ impl MObj {
             leaky: false,
             upgraded_in_dtor: false,
             resurrected: false,
+            fin_this_op: false,
             buffered: false,
             side: 0,
             map_addr: 0,
@@ -691,6 +699,10 @@ impl Ctx {
     fn destructor_on_stack(&self) -> bool {
         self.stack.borrow().iter().any(|f| matches!(f, Frame::Destructor(_) | Frame::Action(_)))
     }
+    /// A destructor of a managed object (not merely a cleaning action) is on the stack
+    pub fn node_destructor_on_stack(&self) -> bool {
+        self.stack.borrow().iter().any(|f| matches!(f, Frame::Destructor(_)))
+    }
     fn innermost_callback(&self) -> Option<Frame> {
         self.stack.borrow().iter().rev().find(|f| !matches!(f, Frame::Api { .. })).copied()
     }
@@ -1003,6 +1015,7 @@ fn cb_finalize(node: &Node) {
             return;
         }
         m.objs[id].fin_flag = true;
+        m.objs[id].fin_this_op = true;
         m.objs[id].fin_calls += 1;
         // Everything reachable from the finalized object must still be undropped
         let mut seen: Set = 0;
@@ -1267,6 +1280,87 @@ fn make_node(expect_finalized: Option<bool>) -> Option<(u8, Cc<Node>)> {
     Some((id, cc))
 }
 
+/// Like make_node, through Cc::new_cyclic (the closure keeps nothing)
+#[cfg(feature = "weak")]
+fn make_cyclic_node(expect_finalized: Option<bool>) -> Option<(u8, Cc<Node>)> {
+    let c = ctx();
+    let id = {
+        let mut m = c.model.borrow_mut();
+        if m.objs.len() >= c.cfg.nobj {
+            return None;
+        }
+        let mut o = MObj::new();
+        o.constructed = false;
+        o.cyclic_pending = true;
+        m.objs.push(o);
+        (m.objs.len() - 1) as u8
+    };
+    let before = state::executions_count().unwrap_or(0);
+    let running = c.collection_running();
+    let cc = {
+        let _f = FrameGuard::new(Frame::Api { collect_like: true, collecting: false });
+        let depth = c.stack.borrow().len();
+        match catch_unwind(AssertUnwindSafe(|| {
+            Cc::new_cyclic(|w: &Weak<Node>| {
+                c.model.borrow_mut().inflight_weak.push(id);
+                if w.strong_count() != 0 || w.upgrade().is_some() {
+                    v!("C14", "P-cyclic", "the Weak given to a new_cyclic closure (called inside a finalizer) is alive");
+                }
+                let node = Node::new(id);
+                c.model.borrow_mut().objs[id as usize].constructed = true;
+                node
+            })
+        })) {
+            Ok(cc) => cc,
+            Err(p) => {
+                unwind_fix_stack(depth);
+                let mut m = c.model.borrow_mut();
+                m.objs[id as usize].cyclic_pending = false;
+                m.objs[id as usize].cyclic_failed = true;
+                m.objs[id as usize].constructed = false;
+                if let Some(pos) = m.inflight_weak.iter().rposition(|x| *x == id) {
+                    m.inflight_weak.remove(pos);
+                }
+                drop(m);
+                resume_unwind(p);
+            },
+        }
+    };
+    drain_alloc();
+    let after = state::executions_count().unwrap_or(0);
+    check_auto_collect(before, after, running);
+    let addr = hk::box_addr(&cc);
+    cc.home.set(&*cc as *const Node as usize);
+    {
+        let mut m = c.model.borrow_mut();
+        if let Some(pos) = m.inflight_weak.iter().rposition(|x| *x == id) {
+            m.inflight_weak.remove(pos);
+        }
+        let o = &mut m.objs[id as usize];
+        o.cyclic_pending = false;
+        o.addr = addr;
+        o.boxed = true;
+        o.size = alloc::block(addr).map_or(0, |b| b.size);
+    }
+    if cc.strong_count() != 1 {
+        v!("C14", "P-cyclic", "strong_count() = {} right after new_cyclic returned", cc.strong_count());
+    }
+    #[cfg(feature = "fin")]
+    {
+        let af = cc.already_finalized();
+        if let Some(exp) = expect_finalized {
+            if af != exp {
+                v!("C05", "P-fin", "object #{} created by new_cyclic {} reports already_finalized() = {}", id, if exp { "inside a finalizer" } else { "outside finalizers" }, af);
+                v!("C14", "P-cyclic", "object #{} created by new_cyclic {} reports already_finalized() = {}", id, if exp { "inside a finalizer" } else { "outside finalizers" }, af);
+            }
+        }
+        c.model.borrow_mut().objs[id as usize].fin_flag = af;
+    }
+    #[cfg(not(feature = "fin"))]
+    let _ = expect_finalized;
+    Some((id, cc))
+}
+
 /// Checks the executions_count delta of a `Cc::new`-like call
 fn check_auto_collect(before: usize, after: usize, was_running: bool) {
     let c = ctx();
@@ -1402,7 +1496,10 @@ fn checked_upgrade(w: &Weak<Node>, target: WRef) -> Option<Cc<Node>> {
                 } else {
                     None
                 };
-                let ms = mn.is_none() && cnt > 0 && !o.limbo && !dctx;
+                // Inside destructor contexts the crate may answer None for members of the set being processed; an
+                // object reachable from the program that no finalizer touched in this operation is not such a member
+                let live_outside = dctx && m.live() & (1 << t) != 0 && !o.fin_this_op;
+                let ms = mn.is_none() && cnt > 0 && !o.limbo && (!dctx || live_outside);
                 (mn, ms, Some(t))
             },
         }
@@ -1446,6 +1543,9 @@ fn checked_upgrade(w: &Weak<Node>, target: WRef) -> Option<Cc<Node>> {
         None => {
             c.stats.borrow_mut().upgrades_none += 1;
             if must_some {
+                if sc == 0 {
+                    v!("C09", "P-wcnt", "Weak::strong_count() returned 0 although {} Cc pointers to the live object #{} exist", c.model.borrow().count(tid.unwrap()), tid.unwrap());
+                }
                 v!("C08", "P-upg", "Weak::upgrade returned None although object #{} is alive (model count {})", tid.unwrap(), c.model.borrow().count(tid.unwrap()));
             }
             if sc != 0 && must_none.is_none() && !c.destructor_on_stack() {
@@ -1578,6 +1678,25 @@ fn run_fin_script(node: &Node) {
         FinScript::CollectThenFinalizeAgainG => {
             do_collect();
             script_finalize_again_g("finalizer (after a collect_cycles() call)");
+        },
+        FinScript::CollectThenAlloc => {
+            // an object created in a finalizer AFTER a (possibly real) nested collection is still "created inside a finalizer"
+            do_collect();
+            if let Some((_nid, cc)) = make_node(Some(true)) {
+                api_drop(cc);
+            }
+        },
+        FinScript::NewCyclicIntoCell1 => {
+            #[cfg(feature = "weak")]
+            {
+                let empty = node.cells[1].try_borrow().map_or(false, |cell| cell.is_none());
+                if empty {
+                    if let Some((nid, cc)) = make_cyclic_node(Some(true)) {
+                        c.model.borrow_mut().objs[id].cells[1] = Some(nid);
+                        *node.cells[1].borrow_mut() = Some(cc);
+                    }
+                }
+            }
         },
         FinScript::DropG => {
             let taken = c.g.borrow_mut().take();
